@@ -13,7 +13,7 @@ ARENA_TEXT = ("proved in Coq for every state satisfying the arena invariant, eve
 CLAIMED = {
     "C01": {
         "technique": "Coq proof (safety invariant preserved by every operation, induction over histories) + model/implementation correspondence",
-        "text": "C01_any_state / C01_reachable / C01_zst: every block handed out is non-null, inside the data part of a held chunk and disjoint from every live or reserved block; " + ARENA_TEXT + "Partial: the finger rewind of a failed *_try_with initialiser is excluded from the theorem (no_rewind) and covered by correspondence + sp_block_ok on the implementation only.",
+        "text": "C01_any_state / C01_every_step / C01_reachable / C01_alloc_in_bounds_disjoint / C01_rewind_safe / C01_zst / C01_source_fast_path: for every history that meets the caller obligations and every behaviour of the global allocator, every block handed out is non-null, inside the data part of a held chunk and disjoint from every live block and every pending reservation; no operation is excluded (the rewind of a failed initialiser is proved safe in ArenaTw.v); the fast path parsed from the source text is proved equal to the model's. " + ARENA_TEXT,
         "design_ref": "DESIGN.md §6 C01",
     },
     "C04": {
@@ -53,7 +53,7 @@ CLAIMED = {
     },
     "C11": {
         "technique": "Coq proof (rewind restores the exact pre-call finger / the fresh chunk's full capacity: same request, same address, no allocator request) + probe in the driver",
-        "text": "C11_no_run_without_space / C11_rewind_restores / C11_ok_keeps_slot; the driver follows every failed initialiser that allocated nothing by a probe request of the same layout (must be served without a global-allocator request), checks the error value byte for byte, and covers initialisers that allocate and keep / release / nest. " + ARENA_TEXT + "Partial: validity of blocks kept by a failing initialiser across the rewind is decided on the implementation only (sp_block_ok + contents).",
+        "text": "C11_no_run_without_space / C11_rewind_restores / C11_ok_keeps_slot; the driver follows every failed initialiser that allocated nothing by a probe request of the same layout (must be served without a global-allocator request), checks the error value byte for byte, and covers initialisers that allocate and keep / release / nest. " + ARENA_TEXT + "C11_rewind_keeps_everything_valid proves that whatever the initialiser allocated and kept stays valid across the rewind. Not a theorem: exactly-once delivery of the error value (driver check).",
         "design_ref": "DESIGN.md §6 C11",
     },
     "C12": {
